@@ -686,6 +686,8 @@ def _register_structure_hooks_recursively(cls: type[Any], visited: set[type[Any]
     for field in dataclasses.fields(cls):
         # Use resolved type hint if available, otherwise raw field type
         field_type = type_hints.get(field.name, field.type)
+        # cattrs reads field.type and leaves a quoted name inside a generic (List["Node"]) unresolved: hand it the resolved hint
+        field.type = field_type
 
         # Handle direct dataclass types
         if isinstance(field_type, type) and dataclasses.is_dataclass(field_type):
@@ -876,6 +878,8 @@ def _register_unstructure_hooks_recursively(cls: type[Any], visited: set[type[An
     for field in dataclasses.fields(cls):
         # Use resolved type hint if available, otherwise raw field type
         field_type = type_hints.get(field.name, field.type)
+        # cattrs reads field.type and leaves a quoted name inside a generic (List["Node"]) unresolved: hand it the resolved hint
+        field.type = field_type
 
         # Handle direct dataclass types
         if isinstance(field_type, type) and dataclasses.is_dataclass(field_type):
